@@ -1,7 +1,7 @@
 /-
   Pulse-train arithmetic of the excitation model over a linearly ordered floor field.
 -/
-import Jb.Model.Vocoder
+import Jb.Proofs.Cepstrum
 import Mathlib.Algebra.Order.Field.Basic
 import Mathlib.Algebra.Order.Floor.Semiring
 import Mathlib.Algebra.Order.Floor.Ring
@@ -18,13 +18,6 @@ variable {K : Type} [Field K] [LinearOrder K] [IsStrictOrderedRing K] [FloorRing
 
 /-- the pulse counter after `j` samples without a pulse, from counter `c` -/
 def counterAfter (c : K) (j : Nat) : K := c + (j : K)
-
-theorem isZeroS_iff (x : K) : isZeroS x = true ↔ x = 0 := by
-  unfold isZeroS
-  simp only [Bool.and_eq_true, Bool.not_eq_true', decide_eq_false_iff_not, not_lt]
-  constructor
-  · rintro ⟨h1, h2⟩; exact le_antisymm h2 h1
-  · rintro rfl; exact ⟨le_refl _, le_refl _⟩
 
 theorem isZeroS_zero : isZeroS (0 : K) = true := (isZeroS_iff 0).mpr rfl
 
